@@ -76,6 +76,7 @@ class Cat(HasTraits):
     p2 = Property(observe="i")
     p3 = Property(Str, observe="i")
     tr = Int(transient=True)
+    sre = __import__("traits.api", fromlist=["String"]).String("ab", regex="^[a-z]+$", maxlen=5)
     cmi = Any(comparison_mode=ComparisonMode.identity)
     cmn = Int(comparison_mode=ComparisonMode.none)
     cme = Float(comparison_mode=ComparisonMode.equality)
@@ -104,7 +105,7 @@ class Cat(HasTraits):
 
 
 KINDS = ["i", "s", "f", "l", "d", "st", "inst", "a", "ro", "k", "ev", "en", "mp", "rg", "rgi", "tp", "ei", "cb", "py", "dg",
-         "pf", "p0", "p1", "p2", "p3", "tr", "l_items", "trait_added", "cmi", "cmn", "cme"]
+         "pf", "p0", "p1", "p2", "p3", "tr", "l_items", "trait_added", "cmi", "cmn", "cme", "sre"]
 FIELDS = ["getattr", "setattr", "post_setattr", "validate", "delegate_attr_name"]
 
 
@@ -139,16 +140,29 @@ def roundtrip_harness(name):
                     same = a is b or a == b
                     ex.check(same, "round trip restores trait->%s" % f)
         else:
-            how = ["pickle2", "pickle3", "pickle4", "pickle5", "deepcopy"][ex.choice("copier", 5)]
+            how = ["pickle2", "pickle3", "pickle4", "pickle5", "deepcopy", "copy"][ex.choice("copier", 6)]
             problem = None
+            PROBES = (5, "a", "abcdefg", "AB", 0.5, None, [1], (1, "z"))
+
+            def run0(c, probe):
+                try:
+                    return ("ok", repr(c.validate(o, name, probe))) if c.validate is not None else ("none",)
+                except TraitError:
+                    return ("TraitError",)
+                except Exception as e:
+                    return (type(e).__name__,)
+            before_copy = [run0(ct, p_) for p_ in PROBES]
             try:
-                ct2 = copy.deepcopy(ct) if how == "deepcopy" else pickle.loads(pickle.dumps(ct, protocol=int(how[-1])))
+                ct2 = (copy.deepcopy(ct) if how == "deepcopy" else copy.copy(ct) if how == "copy"
+                       else pickle.loads(pickle.dumps(ct, protocol=int(how[-1]))))
             except Exception as e:
                 problem = "%s: %r" % (how, e)
                 ct2 = None
             # the singletons ReadOnly / Disallow cannot be found by name when pickled (trait_types rebinds the names to instances):
             # a Python-level PicklingError for the *definition object alone*; objects having such traits pickle fine (history part)
             ex.check(problem is None, "the trait definition object survives %s" % ("deepcopy" if how == "deepcopy" else "pickle"))
+            ex.check([run0(ct, p_) for p_ in PROBES] == before_copy and [run0(Cat().trait(name) if name != "l_items" else ct, p_) for p_ in PROBES] == before_copy,
+                     "copying or pickling a definition leaves the ORIGINAL (and the class that uses it) behaving as before")
             if ct2 is not None:
                 import traits.ctraits as ctm
                 s1, s2 = ctm.cTrait.__getstate__(ct), ctm.cTrait.__getstate__(ct2)
@@ -159,7 +173,7 @@ def roundtrip_harness(name):
                          and ct.modify_delegate == ct2.modify_delegate and ct.setattr_original_value == ct2.setattr_original_value
                          and ct.post_setattr_original_value == ct2.post_setattr_original_value and ct.is_mapped == ct2.is_mapped,
                          "the copied definition has the same comparison mode and definition flags")
-                for probe in (5, "a", 0.5, None, [1], (1, "z")):
+                for probe in (5, "a", "abcdefg", "AB", 0.5, None, [1], (1, "z")):
                     def run(c):
                         try:
                             return ("ok", c.validate(o, name, probe)) if c.validate is not None else ("none",)
@@ -185,6 +199,8 @@ class Node(HasTraits):
     grid = List(List(Int))
     sel = Instance("Node")
     group = Set(Instance("Node"))
+    bykey = Dict(Instance("Node"), Int, copy="deep")
+    mode = Map({"dot": 1, "dash": 2, "solid": 3})           # mapped: the shadow attribute mode_ follows mode
     once = ReadOnly
     scratch = Int(transient=True)
     total = Property(Int, observe="items.items")
@@ -228,9 +244,10 @@ class Node(HasTraits):
     tmp = Int(transient=True)
 
 
-COPIERS = ["pickle0", "pickle1", "pickle2", "pickle3", "pickle4", "pickle5", "deepcopy", "clone", "copy_traits_deep", "copy_traits_shallow"]
+COPIERS = ["pickle0", "pickle1", "pickle2", "pickle3", "pickle4", "pickle5", "deepcopy", "clone", "copy_traits_deep", "copy_traits_shallow",
+           "setstate_quiet", "clone_deep"]
 BUILD_OPS = ["none", "value", "rename", "items", "kids", "table", "tags", "grid", "once", "scratch", "sel_alias", "kid_value",
-             "read_once", "group_alias"]
+             "read_once", "group_alias", "bykey_alias", "mode"]
 
 
 def do_copy(how, n):
@@ -240,6 +257,12 @@ def do_copy(how, n):
         return copy.deepcopy(n)
     if how == "clone":
         return n.clone_traits()
+    if how == "clone_deep":
+        return n.clone_traits(copy="deep")
+    if how == "setstate_quiet":      # the documented quiet restore entry point
+        c = Node.__new__(Node)
+        c.__setstate__(pickle.loads(pickle.dumps(n.__getstate__(), protocol=2)), trait_change_notify=False)
+        return c
     c = Node()
     c.copy_traits(n, copy="deep" if how.endswith("deep") else "shallow")
     return c
@@ -280,6 +303,12 @@ def history_harness(k):
                     n.kids[0].value += 1
             elif op == "read_once":
                 n.once                        # reading a write-once attribute is not writing it (it materialises <undefined>)
+            elif op == "bykey_alias":
+                if not n.kids:
+                    n.kids.append(Node(name="kidK"))
+                n.bykey[n.kids[-1]] = 5          # a node that is a KEY of a Dict trait and an item of a List trait
+            elif op == "mode":
+                n.mode = "dash"
             elif op == "group_alias":
                 if not n.kids:
                     n.kids.append(Node(name="kidG"))
@@ -315,6 +344,14 @@ def history_harness(k):
             if n.group and (how in ("deepcopy", "clone") or how.startswith("pickle")):
                 ex.check(len(c.group) == len(n.group) and all(any(g is kk for kk in c.kids) for g in c.group),
                          "aliasing inside the copied graph is preserved (members of the Set are the copy's own kids)")
+        ex.check(c.mode == n.mode and c.mode_ == {"dot": 1, "dash": 2, "solid": 3}[c.mode],
+                 "a mapped trait's shadow attribute on the copy is the mapping of the copy's value")
+        if deep and n.bykey and (how in ("deepcopy", "clone_deep", "copy_traits_deep") or how.startswith("pickle") or how == "setstate_quiet"):
+            ex.check(len(c.bykey) == len(n.bykey) and all(not any(k_ is nk for nk in n.bykey) for k_ in c.bykey),
+                     "the keys of a deep-copied Dict are copies too (no node shared with the original)")
+            if how in ("deepcopy", "clone_deep") or how.startswith("pickle"):
+                ex.check(all(any(k_ is kk for kk in c.kids) for k_ in c.bykey),
+                         "aliasing inside the copied graph is preserved (the Dict's keys are the copy's own kids)")
         if not wrote and how not in ("copy_traits_deep", "copy_traits_shallow"):
             from traits.api import Undefined
             ex.check(c.once is Undefined, "a write-once attribute that was never written is still <undefined> on the copy")
@@ -378,7 +415,10 @@ def history_harness(k):
         c.value = c.value + 5
         ex.check(c.doubled == d0 + 10, "cached property of the copy follows its dependency")
         ex.check(c.log and c.log[-1] == "value", "declared observers work on the copy")
-        if c.kids:
+        # a quiet restore (trait_change_notify=False) hooks nested on_trait_change listeners through the very
+        # notifications it turns off; the property names unpickling, deep copying and cloning, so listener
+        # liveness is not demanded of that entry point (values, shadows, validation and sharing are)
+        if c.kids and how != "setstate_quiet":
             s0, s2 = c.scratch, c.scratch2
             c.kids[0].value += 1
             ex.check(c.scratch == s0 + 1, "declared nested listeners work on the copy")
